@@ -3,15 +3,19 @@ package rules
 import (
 	"fmt"
 	"go/ast"
-	"go/token"
 	"go/types"
+	"sort"
 	"strings"
 
 	"osmcheck/core"
 )
 
-// Unexported identifiers the C03 rules are keyed on (class 3 anchors): none. The scanner is found as
-// osmxml.(*Scanner).Scan, the custom decoders through the method sets of osm.Action and osm.Date.
+// Unexported identifiers the C03 rules are keyed on: none. The scanner is osmxml.(*Scanner).Scan with everything it
+// calls; the field it publishes objects in is found by role (the receiver field the `func() osm.Object` accessor
+// returns); the custom decoders are found through the method sets of osm.Action and osm.Date. T2-T5 observe what
+// these functions do for each element / attribute name (rules/c03_scan.go on top of the interpreter of
+// rules/c03_eval.go); the surface form of the dispatch (switch, if chain, helper method), local names and the file the
+// code lives in do not matter.
 
 func init() {
 	register(&core.Property{
@@ -19,20 +23,23 @@ func init() {
 		Title: "OSM XML decoding is faithful; streaming scan equals whole-document decode",
 		Explanation: "Structural necessary conditions on the naming layer, which is the entire decoding mechanism of this library: " +
 			"(T1) every element/attribute name of the external OSM XML table (tables/osmxml.json: OSM XML, API v0.6, osmChange, augmented diff) is claimed, with the right kind (attribute / structured element / character data, a>b paths resolved), by the tag of the exported Go field the table names, and no struct has tags encoding/xml rejects; " +
-			"(T2) the streaming scanner's switch dispatches on exactly the element names osm.OSM's element fields carry, each case decoding into the field's own element type (whose XMLName, when declared, is that name) and yielding the decoded object; osmChange blocks are *OSM fields decoded by tags alone, so a repeated block is decoded into the same struct and its slice fields accumulate; " +
-			"(T3) the scanner walks into every other element (default branch and non-start tokens continue the token loop, Decoder.Skip is never called) and every DecodeElement receives the start element read in the same iteration; " +
-			"(T4) Action.UnmarshalXML reads `type` from the attribute list and has a well-formed case for old, new, node, way, relation; Date parses with the layout constant it formats with. " +
-			"NOT decided: everything encoding/xml itself does (attribute order, whitespace, comments, entities, self-closing tags, unknown names are its documented behaviour), equality of decoded values, and names outside the table (library extensions are covered by C04's symmetry rules only).",
-		Assumptions: []string{"go/types (x/tools v0.29.0)", "documented naming rules of encoding/xml (struct tags, XMLName, slices append per occurrence, a nil pointer field is allocated once and reused)", "tables/osmxml.json transcribes the OSM documentation correctly"},
-		LevelText:   "Structural necessary conditions: struct tags agree with the externally specified OSM XML names for every table entry; the streaming scanner's dispatch table agrees with the container's tags in both directions and never skips content; custom decoders handle the documented names. Value equality and encoding/xml's own behaviour are not decided.",
-		LevelNote:   "Trusts the type checker and the documented naming rules of encoding/xml, re-implemented in rules/c03_xmlmodel.go; the table is the external specification.",
-		Technique:   "type-resolved struct-tag model of encoding/xml checked against an external name table; AST/type-resolved dispatch-table agreement for the scanner and custom decoders",
+			"(T2) for every element name osm.OSM's element fields carry, and for no other name, every path of the streaming scanner's Scan that returns true has decoded (exactly one DecodeElement) into a fresh object of the field's own element type (whose XMLName, when declared, is that name) and holds that very object in the field its Object accessor returns; osmChange blocks are *OSM fields decoded by tags alone, so a repeated block is decoded into the same struct and its slice fields accumulate; " +
+			"(T3) for a token that is not a start element, and for a start element of any other name, every path goes back to the head of the loop that reads the next token without decoding or skipping anything (Decoder.Skip is called on no path), and every DecodeElement receives the start element bound in the same iteration on the decoder the token came from; " +
+			"(T4) Action.UnmarshalXML stores the Value of the start element's `type` attribute (and of no other attribute) into Action.Type and, for each of old, new, node, way, relation, decodes the child into a fresh object that the documented field of the action holds at the end of the iteration; Date parses the text it decoded with the layout it formats with; " +
+			"(T5) between DecodeElement and the return of Scan nothing is stored through the decoded object and it is handed to no code the analysis does not enter: the scanner yields what encoding/xml decoded, as a whole-document decode does. " +
+			"T2-T5 are decided on the behaviour observed by an abstract interpreter that explores Scan / UnmarshalXML, with everything they call, once per element name (and attribute name). " +
+			"NOT decided: everything encoding/xml itself does (attribute order, whitespace, comments, entities, self-closing tags, unknown names are its documented behaviour), equality of decoded values, names outside the table (library extensions are covered by C04's symmetry rules only), and behaviour that only shows from the second iteration of a loop on.",
+		Assumptions: []string{"go/types (x/tools v0.29.0)", "documented naming rules of encoding/xml (struct tags, XMLName, slices append per occurrence, a nil pointer field is allocated once and reused, DecodeElement fills the pointee of a non-nil pointer and keeps the pointer)", "the path-enumerating abstract interpreter of rules/c03_eval.go (one iteration per loop, calls outside the repository opaque, function literals / defer / goroutines make the exploration undecided)", "tables/osmxml.json transcribes the OSM documentation correctly"},
+		LevelText:   "Structural necessary conditions: struct tags agree with the externally specified OSM XML names for every table entry; for every element name the streaming scanner yields exactly the freshly decoded object of the container field's type, unmodified, and walks into everything else; custom decoders store the documented names into the documented fields. Value equality and encoding/xml's own behaviour are not decided.",
+		LevelNote:   "Trusts the type checker, the documented naming rules of encoding/xml (re-implemented in rules/c03_xmlmodel.go) and the abstract interpreter's modelling of the Go statements the decoders use (anything it does not model is reported as undecided); the table is the external specification.",
+		Technique:   "type-resolved struct-tag model of encoding/xml checked against an external name table; abstract interpretation of the scanner and of the custom decoders over the finite set of element / attribute names, observing DecodeElement calls with symbolic arguments, loop back edges, returns and the final receiver state",
 		DesignRef:   "DESIGN.md §5 C03, §3.3, Appendix C",
 		Rules: []*core.Rule{
 			{ID: "T1", Floor: 140, Doc: "schema table <-> struct tags (names, kinds, Go fields, XMLName, well-formed tags)", Run: c03T1},
-			{ID: "T2", Floor: 25, Doc: "scanner cases <-> osm.OSM element fields (both directions); osmChange containers accumulate", Run: c03T2},
-			{ID: "T3", Floor: 11, Doc: "scanner walks into wrappers: default/non-start continue, no Skip, DecodeElement gets the element just read", Run: c03T3},
-			{ID: "T4", Floor: 13, Doc: "custom decoders: Action.UnmarshalXML cases and type attribute; Date layout", Run: c03T4},
+			{ID: "T2", Floor: 25, Doc: "scanner yields, per element name of osm.OSM, the fresh decoded object of the field's type (7 names + 7 fields + dispatch); osmChange containers accumulate (1 + 3 + 6)", Run: c03T2},
+			{ID: "T3", Floor: 11, Doc: "scanner walks into wrappers: other names / non-start tokens go back to the token loop, no Skip, DecodeElement gets the element just read (4 + 7 names)", Run: c03T3},
+			{ID: "T4", Floor: 13, Doc: "custom decoders: Action.UnmarshalXML child elements (5 + 5) and type attribute; Date layout and decode", Run: c03T4},
+			{ID: "T5", Floor: 7, Doc: "the scanner publishes the decoded object unmodified: no store through it, no hand-off, between DecodeElement and return (7 names)", Run: c03T5},
 		},
 		Mutants: []core.Mutant{
 			{Name: "waynode-latlon-swapped", File: "way.go", Find: "Lat         float64     `xml:\"lat,attr,omitempty\"`\n\tLon         float64     `xml:\"lon,attr,omitempty\"`", Replace: "Lat         float64     `xml:\"lon,attr,omitempty\"`\n\tLon         float64     `xml:\"lat,attr,omitempty\"`", ExpectRule: "T1", ExpectConstruct: "ext WayNode"},
@@ -45,6 +52,9 @@ func init() {
 			{Name: "scanner-no-note", File: "osmxml/scanner.go", Find: "\t\tcase \"note\":\n\t\t\tn := &osm.Note{}\n\t\t\terr = s.decoder.DecodeElement(&n, &se)\n\t\t\ts.next = n\n", Replace: "", ExpectRule: "T2", ExpectConstruct: "field OSM.Notes"},
 			{Name: "scanner-yields-stale", File: "osmxml/scanner.go", Find: "\t\t\ts.next = way\n", Replace: "", ExpectRule: "T2", ExpectConstruct: "case \"way\""},
 			{Name: "change-modify-tag-capitalised", File: "change.go", Find: "Modify *OSM `xml:\"modify\"", Replace: "Modify *OSM `xml:\"Modify\"", ExpectRule: "T2", ExpectConstruct: "container@Change.Modify"},
+			{Name: "scanner-rewrites-decoded-field", File: "osmxml/scanner.go", Find: "\t\t\terr = s.decoder.DecodeElement(&node, &se)\n\t\t\ts.next = node\n", Replace: "\t\t\terr = s.decoder.DecodeElement(&node, &se)\n\t\t\tnode.User = strings.TrimSpace(node.User)\n\t\t\ts.next = node\n", ExpectRule: "T5", ExpectConstruct: "unmodified \"node\""},
+			{Name: "scanner-hands-object-out", File: "osmxml/scanner.go", Find: "\t\t\terr = s.decoder.DecodeElement(&way, &se)\n\t\t\ts.next = way\n", Replace: "\t\t\terr = s.decoder.DecodeElement(&way, &se)\n\t\t\tway.Nodes.UnmarshalJSON(nil)\n\t\t\ts.next = way\n", ExpectRule: "T5", ExpectConstruct: "unmodified \"way\""},
+			{Name: "scanner-publishes-other-object", File: "osmxml/scanner.go", Find: "\t\t\terr = s.decoder.DecodeElement(&relation, &se)\n\t\t\ts.next = relation\n", Replace: "\t\t\terr = s.decoder.DecodeElement(&relation, &se)\n\t\t\ts.next = &osm.Relation{ID: relation.ID}\n", ExpectRule: "T2", ExpectConstruct: "case \"relation\""},
 			{Name: "scanner-skips-wrappers", File: "osmxml/scanner.go", Find: "\t\tdefault:\n\t\t\tcontinue Loop", Replace: "\t\tdefault:\n\t\t\ts.decoder.Skip()\n\t\t\tcontinue Loop", ExpectRule: "T3", ExpectConstruct: "skip@"},
 			{Name: "scanner-default-falls-through", File: "osmxml/scanner.go", Find: "\t\tdefault:\n\t\t\tcontinue Loop", Replace: "\t\tdefault:\n\t\t\tif se.Name.Local != \"osm\" {\n\t\t\t\tcontinue Loop\n\t\t\t}", ExpectRule: "T3", ExpectConstruct: "default@"},
 			{Name: "scanner-stops-on-chardata", File: "osmxml/scanner.go", Find: "\t\tif !ok {\n\t\t\tcontinue\n\t\t}", Replace: "\t\tif !ok {\n\t\t\treturn false\n\t\t}", ExpectRule: "T3", ExpectConstruct: "nonstart@"},
@@ -54,6 +64,7 @@ func init() {
 			{Name: "action-type-wrong-attr", File: "diff.go", Find: "if attr.Name.Local == \"type\" {", Replace: "if attr.Name.Local == \"action\" {", ExpectRule: "T4", ExpectConstruct: "attr@"},
 			{Name: "date-parse-other-layout", File: "note.go", Find: "d.Time, err = time.Parse(dateLayout, s)", Replace: "d.Time, err = time.Parse(time.RFC3339, s)", ExpectRule: "T4", ExpectConstruct: "layout@Date"},
 		},
+		Benign: c03Benign,
 	})
 }
 
@@ -145,148 +156,7 @@ func c03TagOf(f *c03Field) string {
 	return strings.ReplaceAll(s, "/", ">")
 }
 
-// ---- decode-call helpers -----------------------------------------------------------------------
-
-// c03DecodeCall is one (*xml.Decoder).DecodeElement(v, start) call.
-type c03DecodeCall struct {
-	Call   *ast.CallExpr
-	Target ast.Expr     // first argument with a leading & removed
-	TObj   types.Object // root variable of the target
-	Start  ast.Expr     // second argument with a leading & removed (nil for a nil/non-address argument)
-	Recv   ast.Expr     // the decoder expression
-}
-
-func c03DecodeCalls(info *types.Info, n ast.Node) []c03DecodeCall {
-	var out []c03DecodeCall
-	ast.Inspect(n, func(x ast.Node) bool {
-		call, ok := x.(*ast.CallExpr)
-		if !ok || len(call.Args) != 2 || !isMethod(callee(info, call), "encoding/xml.Decoder", "DecodeElement") {
-			return true
-		}
-		dc := c03DecodeCall{Call: call}
-		t := ast.Unparen(call.Args[0])
-		if ue, ok := t.(*ast.UnaryExpr); ok && ue.Op == token.AND {
-			t = ast.Unparen(ue.X)
-		}
-		dc.Target, dc.TObj = t, rootObj(info, t)
-		if ue, ok := ast.Unparen(call.Args[1]).(*ast.UnaryExpr); ok && ue.Op == token.AND {
-			dc.Start = ast.Unparen(ue.X)
-		}
-		if sel, ok := ast.Unparen(call.Fun).(*ast.SelectorExpr); ok {
-			dc.Recv = sel.X
-		}
-		out = append(out, dc)
-		return true
-	})
-	return out
-}
-
-// c03TokenLoop describes the `for { tok, err := d.Token(); ...; se, ok := tok.(xml.StartElement) ... }` idiom.
-type c03TokenLoop struct {
-	For      *ast.ForStmt
-	Label    string
-	TokCall  *ast.CallExpr
-	Decoder  ast.Expr
-	TokVar   types.Object
-	StartVar types.Object // variable bound by tok.(xml.StartElement)
-	OkVar    types.Object
-	Assert   *ast.AssignStmt
-}
-
-// c03FindTokenLoop finds the token loop of fi.
-func c03FindTokenLoop(r *core.R, fi *FuncInfo) *c03TokenLoop {
-	info := fi.Pkg.TypesInfo
-	par := parentsOf(r.P, fi)
-	var tl *c03TokenLoop
-	ast.Inspect(fi.Decl.Body, func(n ast.Node) bool {
-		fs, ok := n.(*ast.ForStmt)
-		if !ok || tl != nil {
-			return true
-		}
-		cand := &c03TokenLoop{For: fs}
-		if ls, ok := par[fs].(*ast.LabeledStmt); ok {
-			cand.Label = ls.Label.Name
-		}
-		for _, st := range fs.Body.List {
-			as, ok := st.(*ast.AssignStmt)
-			if !ok || len(as.Rhs) != 1 {
-				continue
-			}
-			switch rhs := ast.Unparen(as.Rhs[0]).(type) {
-			case *ast.CallExpr:
-				if isMethod(callee(info, rhs), "encoding/xml.Decoder", "Token") && len(as.Lhs) == 2 {
-					cand.TokCall, cand.TokVar = rhs, objOf(info, as.Lhs[0])
-					if sel, ok := ast.Unparen(rhs.Fun).(*ast.SelectorExpr); ok {
-						cand.Decoder = sel.X
-					}
-				}
-			case *ast.TypeAssertExpr:
-				if cand.TokVar != nil && objOf(info, rhs.X) == cand.TokVar && namedPath(info.TypeOf(rhs.Type)) == "encoding/xml.StartElement" && len(as.Lhs) == 2 {
-					cand.StartVar, cand.OkVar, cand.Assert = objOf(info, as.Lhs[0]), objOf(info, as.Lhs[1]), as
-				}
-			}
-		}
-		if cand.TokCall != nil && cand.StartVar != nil {
-			tl = cand
-		}
-		return true
-	})
-	return tl
-}
-
-// c03StartJustRead reports whether a DecodeElement call decodes with the start element bound in the same
-// iteration of the token loop, through the same decoder.
-func c03StartJustRead(info *types.Info, tl *c03TokenLoop, dc c03DecodeCall) (bool, string) {
-	if dc.Start == nil {
-		return false, "the start argument is not the address of the start element just read (with a nil start DecodeElement reads the *next* start element from the stream, i.e. a child or a sibling)"
-	}
-	if objOf(info, dc.Start) != tl.StartVar {
-		return false, "the start argument is not the element bound from the token read in this iteration"
-	}
-	if dc.Recv == nil || tl.Decoder == nil || !sameExpr(info, dc.Recv, tl.Decoder) {
-		return false, "DecodeElement is called on a different decoder than the one the token was read from"
-	}
-	if dc.Call.Pos() < tl.Assert.End() || dc.Call.End() > tl.For.End() {
-		return false, "DecodeElement is outside the iteration that read the token"
-	}
-	return true, ""
-}
-
-// c03SwitchOnStartName reports whether the switch tag is X.Name.Local of the start variable, possibly under strings.ToLower.
-func c03SwitchOnStartName(info *types.Info, tag ast.Expr, startVar types.Object) (ok bool, lowered bool) {
-	tag = ast.Unparen(tag)
-	if call, isCall := tag.(*ast.CallExpr); isCall && len(call.Args) == 1 && isPkgFunc(callee(info, call), "strings", "ToLower") {
-		lowered = true
-		tag = ast.Unparen(call.Args[0])
-	}
-	if rootObj(info, tag) == startVar && c03SelPath(tag) == "Name.Local" {
-		return true, lowered
-	}
-	return false, lowered
-}
-
 // ---- T2 --------------------------------------------------------------------------------------
-
-// c03ScanSwitch locates the dispatch switch of osmxml.(*Scanner).Scan.
-func c03ScanSwitch(r *core.R) (*FuncInfo, *c03TokenLoop, *c03Switch) {
-	fi := findFunc(r.P.Pkg("osmxml"), "(*Scanner).Scan")
-	if fi == nil {
-		r.Anchor("osmxml.(*Scanner).Scan")
-		return nil, nil, nil
-	}
-	tl := c03FindTokenLoop(r, fi)
-	if tl == nil {
-		r.Anchor("token loop `t, err := s.decoder.Token(); se, ok := t.(xml.StartElement)` in osmxml.(*Scanner).Scan")
-		return fi, nil, nil
-	}
-	for _, sw := range c03StringSwitches(fi.Pkg.TypesInfo, tl.For.Body) {
-		if ok, _ := c03SwitchOnStartName(fi.Pkg.TypesInfo, sw.Stmt.Tag, tl.StartVar); ok {
-			return fi, tl, sw
-		}
-	}
-	r.Anchor("switch on the start element's Name.Local in osmxml.(*Scanner).Scan")
-	return fi, tl, nil
-}
 
 func c03T2(r *core.R) {
 	c03Init(r)
@@ -297,77 +167,7 @@ func c03T2(r *core.R) {
 		return
 	}
 	osmTI := c03XMLTypeInfo(osmNT)
-	fi, tl, sw := c03ScanSwitch(r)
-	if sw != nil {
-		info := fi.Pkg.TypesInfo
-		_, lowered := c03SwitchOnStartName(info, sw.Stmt.Tag, tl.StartVar)
-		how := "se.Name.Local"
-		if lowered {
-			how = "strings.ToLower(se.Name.Local) (all labels must then be lower case)"
-		}
-		r.OK("tag@(*Scanner).Scan", sw.Stmt.Pos(), "dispatches on %s of the start element just read", how)
-		recv := c03Receiver(fi)
-		seen := map[string]bool{}
-		for _, cs := range sw.Cases {
-			c := fmt.Sprintf("case %q@(*Scanner).Scan", cs.Label)
-			seen[cs.Label] = true
-			if lowered && cs.Label != strings.ToLower(cs.Label) {
-				r.Bad(c, cs.Clause.Pos(), "label %q can never match the lower-cased element name", cs.Label)
-				continue
-			}
-			f := osmTI.Lookup(false, []string{cs.Label})
-			if f == nil {
-				r.Bad(c, cs.Clause.Pos(), "the scanner yields objects for <%s> but no field of osm.OSM is tagged %q: whole-document decoding drops what the scanner yields", cs.Label, cs.Label)
-				continue
-			}
-			dcs := c03DecodeCalls(info, cs.Clause)
-			if len(dcs) != 1 || dcs[0].TObj == nil {
-				r.Unknown(c, cs.Clause.Pos(), "expected exactly one DecodeElement(&v, &se) in the case body, found %d", len(dcs))
-				continue
-			}
-			dc := dcs[0]
-			vt := c03Deref(dc.TObj.Type())
-			want := c03ElemType(f.Var.Type())
-			if !types.Identical(vt, want) {
-				r.Bad(c, dc.Call.Pos(), "<%s> is decoded into %s by the scanner but osm.OSM.%s (tag %q) holds %s: the two decoders yield different objects for the same element", cs.Label, c03Short(vt), f.Var.Name(), cs.Label, c03Short(want))
-				continue
-			}
-			if ti := c03XMLTypeInfo(vt); ti != nil && ti.XMLName != nil && ti.XMLName.Name != "" && ti.XMLName.Name != cs.Label {
-				r.Bad(c, dc.Call.Pos(), "%s.XMLName is %q: DecodeElement of a <%s> start element fails with \"expected element type <%s>\"", c03Short(vt), ti.XMLName.Name, cs.Label, ti.XMLName.Name)
-				continue
-			}
-			// the decoded variable is what Object() will return
-			yielded := false
-			ast.Inspect(cs.Clause, func(n ast.Node) bool {
-				as, ok := n.(*ast.AssignStmt)
-				if !ok {
-					return true
-				}
-				for i, l := range as.Lhs {
-					if i < len(as.Rhs) && rootObj(info, l) == recv && fieldOf(info, l) != nil && objOf(info, as.Rhs[i]) == dc.TObj && as.Pos() > dc.Call.Pos() {
-						yielded = true
-					}
-				}
-				return true
-			})
-			if !yielded {
-				r.Bad(c, cs.Clause.Pos(), "the decoded %s is not stored into the scanner after DecodeElement: Object() returns nil/a stale object for <%s>", dc.TObj.Name(), cs.Label)
-				continue
-			}
-			r.OK(c, dc.Call.Pos(), "decodes into %s = element type of osm.OSM.%s (tag %q) and yields it", c03Short(dc.TObj.Type()), f.Var.Name(), cs.Label)
-		}
-		for _, f := range osmTI.Fields {
-			if f.Kind != c03Elem {
-				continue
-			}
-			c := "field OSM." + f.Var.Name() + "@(*Scanner).Scan"
-			if seen[f.Name] && len(f.Parents) == 0 {
-				r.OK(c, f.Var.Pos(), "element <%s> has a scanner case", f.Name)
-			} else {
-				r.Bad(c, f.Var.Pos(), "osm.OSM.%s decodes <%s> but the scanner has no case %q: the streaming scan silently drops these objects (it walks into them as if they were wrappers)", f.Var.Name(), f.Path(), f.Name)
-			}
-		}
-	}
+	c03T2Scanner(r, osmTI)
 
 	// osmChange containers
 	tbl, err := c03LoadTable()
@@ -440,383 +240,7 @@ func c03T2(r *core.R) {
 	}
 }
 
-// ---- T3 --------------------------------------------------------------------------------------
-
-// c03ContinuesLoop: the statement list is exactly `continue` / `continue Label` of the token loop.
-func c03ContinuesLoop(list []ast.Stmt, tl *c03TokenLoop, insideSwitch bool) bool {
-	if len(list) != 1 {
-		return false
-	}
-	bs, ok := list[0].(*ast.BranchStmt)
-	if !ok || bs.Tok != token.CONTINUE {
-		return false
-	}
-	if bs.Label != nil {
-		return tl.Label != "" && bs.Label.Name == tl.Label
-	}
-	return true // an unlabeled continue inside a switch still continues the enclosing for
-}
-
-func c03T3(r *core.R) {
-	c03Init(r)
-	fi, tl, sw := c03ScanSwitch(r)
-	if fi == nil || tl == nil {
-		return
-	}
-	info := fi.Pkg.TypesInfo
-	name := fi.Name()
-	// the loop is unconditional and only left by return
-	if tl.For.Cond == nil && tl.For.Init == nil && tl.For.Post == nil {
-		r.OK("loop@"+name, tl.For.Pos(), "unconditional token loop around %s", src(r.P.Fset, tl.TokCall))
-	} else {
-		r.Unknown("loop@"+name, tl.For.Pos(), "token loop has a condition: %s", src(r.P.Fset, tl.For.Cond))
-	}
-	// non-start tokens continue
-	var okIf *ast.IfStmt
-	for _, st := range tl.For.Body.List {
-		if ifs, ok := st.(*ast.IfStmt); ok && ifs.Pos() > tl.Assert.End() && okIf == nil {
-			if ue, ok := ast.Unparen(ifs.Cond).(*ast.UnaryExpr); ok && ue.Op == token.NOT && objOf(info, ue.X) == tl.OkVar {
-				okIf = ifs
-			}
-		}
-	}
-	switch {
-	case okIf == nil:
-		r.Unknown("nonstart@"+name, tl.Assert.Pos(), "no `if !ok {...}` after `%s`", src(r.P.Fset, tl.Assert))
-	case okIf.Else == nil && c03ContinuesLoop(okIf.Body.List, tl, false):
-		r.OK("nonstart@"+name, okIf.Pos(), "tokens that are not start elements (text, comments, end tags, directives) continue the token loop")
-	default:
-		r.Bad("nonstart@"+name, okIf.Pos(), "a token that is not a start element makes Scan do `%s` instead of continuing: whitespace or a comment before an element ends the scan, whole-document decoding ignores it", src(r.P.Fset, okIf.Body))
-	}
-	// default branch
-	if sw != nil {
-		switch {
-		case sw.Default == nil:
-			r.Bad("default@"+name, sw.Stmt.Pos(), "the dispatch switch has no default branch: an unknown element (osm, osmChange, create, modify, delete, action, old, new) falls through to `return true` with a nil object instead of being walked into")
-		case c03ContinuesLoop(sw.Default.Body, tl, true):
-			r.OK("default@"+name, sw.Default.Pos(), "unknown elements (document roots, change/diff wrappers) continue the token loop, so their children are reached")
-		default:
-			r.Bad("default@"+name, sw.Default.Pos(), "the default branch does `%s` instead of continuing the token loop: elements nested in <osm>/<osmChange>/<create>/... are never reached, whole-document decoding reads them", strings.TrimSpace(src(r.P.Fset, &ast.BlockStmt{List: sw.Default.Body})))
-		}
-	}
-	// no Skip anywhere in Scan
-	nskip := 0
-	ast.Inspect(fi.Decl.Body, func(n ast.Node) bool {
-		if call, ok := n.(*ast.CallExpr); ok && isMethod(callee(info, call), "encoding/xml.Decoder", "Skip") {
-			nskip++
-			r.Bad("skip@"+name, call.Pos(), "`%s`: skipping an element in the scan loop drops every object nested in it (objects inside <create>/<modify>/<delete>/<action> wrappers), whole-document decoding keeps them", src(r.P.Fset, call))
-		}
-		return true
-	})
-	if nskip == 0 {
-		r.OKTrivial("skip@"+name, fi.Decl.Pos(), "no (*xml.Decoder).Skip call in Scan")
-	}
-	// every DecodeElement gets the start element just read
-	for _, dc := range c03DecodeCalls(info, tl.For.Body) {
-		label := "?"
-		if sw != nil {
-			for _, cs := range sw.Cases {
-				if cs.Clause.Pos() <= dc.Call.Pos() && dc.Call.End() <= cs.Clause.End() {
-					label = cs.Label
-				}
-			}
-		}
-		c := fmt.Sprintf("decode@%s case %q", name, label)
-		if ok, why := c03StartJustRead(info, tl, dc); ok {
-			r.OK(c, dc.Call.Pos(), "`%s` decodes the element whose start tag was read in this iteration", src(r.P.Fset, dc.Call))
-		} else {
-			r.Bad(c, dc.Call.Pos(), "`%s`: %s", src(r.P.Fset, dc.Call), why)
-		}
-	}
-}
-
 // ---- T4 --------------------------------------------------------------------------------------
-
-func c03T4(r *core.R) {
-	c03Init(r)
-	pk := c03OsmPkg(r.P)
-	info := pk.TypesInfo
-	tbl, err := c03LoadTable()
-	if err != nil {
-		r.Anchor("tables/osmxml.json: " + err.Error())
-		return
-	}
-	tt := tbl.Type("Action")
-	actNT, _ := structType(pk, "Action")
-	osmNT, _ := structType(pk, "OSM")
-	fi := findFunc(pk, "(*Action).UnmarshalXML")
-	if tt == nil || actNT == nil || osmNT == nil || fi == nil {
-		r.Anchor("osm.(*Action).UnmarshalXML / table type Action")
-	} else {
-		c03T4Action(r, fi, tt, actNT, osmNT)
-	}
-	c03DateLayout(r, "layout@Date")
-	// Date.UnmarshalXML decodes the element it was handed
-	if dfi := findFunc(pk, "(*Date).UnmarshalXML"); dfi != nil {
-		sig := dfi.Obj.Type().(*types.Signature)
-		dcs := c03DecodeCalls(info, dfi.Decl.Body)
-		switch {
-		case len(dcs) != 1 || sig.Params().Len() != 2:
-			r.Unknown("decode@(*Date).UnmarshalXML", dfi.Decl.Pos(), "expected one DecodeElement(&s, &start), found %d", len(dcs))
-		case dcs[0].Start != nil && objOf(info, dcs[0].Start) == sig.Params().At(1) && objOf(info, dcs[0].Recv) == sig.Params().At(0):
-			r.OK("decode@(*Date).UnmarshalXML", dcs[0].Call.Pos(), "decodes the text of the element it was handed (`%s`)", src(r.P.Fset, dcs[0].Call))
-		default:
-			r.Bad("decode@(*Date).UnmarshalXML", dcs[0].Call.Pos(), "`%s` does not decode the start element handed to UnmarshalXML", src(r.P.Fset, dcs[0].Call))
-		}
-	} else {
-		r.Anchor("osm.(*Date).UnmarshalXML")
-	}
-}
-
-func c03T4Action(r *core.R, fi *FuncInfo, tt *c03TableType, actNT, osmNT *types.Named) {
-	info := fi.Pkg.TypesInfo
-	name := fi.Name()
-	recv := c03Receiver(fi)
-	sig := fi.Obj.Type().(*types.Signature)
-	actTI := c03XMLTypeInfo(actNT)
-	osmTI := c03XMLTypeInfo(osmNT)
-
-	// --- `type` from the attribute list
-	for _, e := range tt.Entries {
-		if e.Kind != "attr" {
-			continue
-		}
-		aname := strings.TrimPrefix(e.XML, "@")
-		c := "attr@" + name + " " + aname
-		found, okAssign := false, false
-		var pos token.Pos = fi.Decl.Pos()
-		ast.Inspect(fi.Decl.Body, func(n ast.Node) bool {
-			rs, ok := n.(*ast.RangeStmt)
-			if !ok || rs.Value == nil {
-				return true
-			}
-			// range over start.Attr of the start parameter
-			if sig.Params().Len() != 2 || rootObj(info, rs.X) != sig.Params().At(1) || c03SelPath(rs.X) != "Attr" {
-				return true
-			}
-			av := objOf(info, rs.Value)
-			ast.Inspect(rs.Body, func(m ast.Node) bool {
-				ifs, ok := m.(*ast.IfStmt)
-				if !ok {
-					return true
-				}
-				be, ok := ast.Unparen(ifs.Cond).(*ast.BinaryExpr)
-				if !ok || be.Op != token.EQL {
-					return true
-				}
-				x, y := be.X, be.Y
-				if _, isConst := constString(info, x); isConst {
-					x, y = y, x
-				}
-				v, isConst := constString(info, y)
-				if !isConst || rootObj(info, x) != av || c03SelPath(x) != "Name.Local" {
-					return true
-				}
-				if v != aname {
-					return true
-				}
-				found, pos = true, ifs.Pos()
-				for _, st := range ifs.Body.List {
-					as, ok := st.(*ast.AssignStmt)
-					if !ok || len(as.Lhs) != 1 || len(as.Rhs) != 1 {
-						continue
-					}
-					f := fieldOf(info, as.Lhs[0])
-					if f == nil || rootObj(info, as.Lhs[0]) != recv || f.Name() != e.Field {
-						continue
-					}
-					// value derives from attr.Value of the loop variable
-					uses := false
-					ast.Inspect(as.Rhs[0], func(k ast.Node) bool {
-						if se, ok := k.(*ast.SelectorExpr); ok && se.Sel.Name == "Value" && objOf(info, se.X) == av {
-							uses = true
-						}
-						return true
-					})
-					okAssign = uses
-				}
-				return true
-			})
-			return true
-		})
-		tagOK := false
-		if f := actTI.Field(e.Field); f != nil && f.Kind == c03Attr && f.Name == aname {
-			tagOK = true
-		}
-		switch {
-		case !found:
-			r.Bad(c, pos, "UnmarshalXML never compares an attribute name of the start element with %q: %s.%s stays empty for every <action %s=...>", aname, tt.Go, e.Field, aname)
-		case !okAssign:
-			r.Bad(c, pos, "the %q attribute is recognised but its Value is not stored into %s.%s", aname, tt.Go, e.Field)
-		case !tagOK:
-			r.Bad(c, pos, "%s.%s is not tagged `%s,attr`: the tag (used by nothing else but documentation and C04's symmetry rule) disagrees with the decoder", tt.Go, e.Field, aname)
-		default:
-			r.OK(c, pos, "attribute %q of the start element is stored into %s.%s (tagged `%s,attr`)", aname, tt.Go, e.Field, aname)
-		}
-	}
-
-	// --- element cases
-	tl := c03FindTokenLoop(r, fi)
-	if tl == nil {
-		r.Anchor("token loop in " + name)
-		return
-	}
-	var sw *c03Switch
-	for _, s := range c03StringSwitches(info, tl.For.Body) {
-		if ok, lowered := c03SwitchOnStartName(info, s.Stmt.Tag, tl.StartVar); ok && !lowered {
-			sw = s
-		}
-	}
-	if sw == nil {
-		r.Anchor("switch start.Name.Local in " + name)
-		return
-	}
-	inTable := map[string]*c03TableEntry{}
-	for i := range tt.Entries {
-		if tt.Entries[i].Kind == "element" {
-			inTable[tt.Entries[i].XML] = &tt.Entries[i]
-		}
-	}
-	seen := map[string]bool{}
-	for _, cs := range sw.Cases {
-		c := fmt.Sprintf("case %q@%s", cs.Label, name)
-		seen[cs.Label] = true
-		dcs := c03DecodeCalls(info, cs.Clause)
-		if len(dcs) != 1 {
-			r.Unknown(c, cs.Clause.Pos(), "expected exactly one DecodeElement in the case body, found %d", len(dcs))
-			continue
-		}
-		dc := dcs[0]
-		goPath, why := c03ActionCaseTarget(info, cs, dc, recv, actTI, osmTI, osmNT)
-		if why != "" {
-			r.Bad(c, dc.Call.Pos(), "%s", why)
-			continue
-		}
-		if e := inTable[cs.Label]; e != nil && e.Field != goPath {
-			r.Bad(c, dc.Call.Pos(), "<%s> inside <action> is stored into Action.%s; the augmented-diff format puts it into Action.%s", cs.Label, goPath, e.Field)
-			continue
-		}
-		r.OK(c, dc.Call.Pos(), "<%s> is decoded and stored into Action.%s, whose tag/element type is %q", cs.Label, goPath, cs.Label)
-		cc := fmt.Sprintf("decode@%s case %q", name, cs.Label)
-		if ok, why := c03StartJustRead(info, tl, dc); ok {
-			r.OK(cc, dc.Call.Pos(), "`%s` decodes the element whose start tag was read in this iteration", src(r.P.Fset, dc.Call))
-		} else {
-			r.Bad(cc, dc.Call.Pos(), "`%s`: %s", src(r.P.Fset, dc.Call), why)
-		}
-	}
-	for _, l := range c03SortedKeys(func() map[string]bool {
-		m := map[string]bool{}
-		for k := range inTable {
-			m[k] = true
-		}
-		return m
-	}()) {
-		if !seen[l] {
-			r.Bad(fmt.Sprintf("case %q@%s", l, name), sw.Stmt.Pos(), "Action.UnmarshalXML has no case %q: <%s> children of an augmented-diff <action> (%s) are silently dropped", l, l, tt.Doc)
-		}
-	}
-}
-
-// c03ActionCaseTarget classifies one case of Action.UnmarshalXML and returns the Go path (below Action) that
-// receives the decoded element. Idioms:
-//
-//	a.F = &OSM{}; d.DecodeElement(a.F, &start)                      -> "F"   (F tagged with the label)
-//	v := &T{}; d.DecodeElement(&v, &start); a.OSM = &OSM{K: KS{v}}  -> "OSM.K" (OSM.K tagged with the label, element type T)
-func c03ActionCaseTarget(info *types.Info, cs c03Case, dc c03DecodeCall, recv *types.Var, actTI, osmTI *c03Struct, osmNT *types.Named) (string, string) {
-	if dc.TObj == nil {
-		return "", "DecodeElement target is not a variable or a field"
-	}
-	if dc.TObj == recv {
-		f := fieldOf(info, dc.Target)
-		if f == nil {
-			return "", "DecodeElement target is not a field of the receiver"
-		}
-		xf := actTI.FieldOf(f)
-		if xf == nil || xf.Kind != c03Elem || xf.Name != cs.Label {
-			got := "untagged"
-			if xf != nil {
-				got = "`" + c03TagOf(xf) + "`"
-			}
-			return "", fmt.Sprintf("<%s> is decoded into Action.%s, which is tagged %s: the hand-written decoder and the tag (and Action.MarshalXML, which writes Action.%s as <%s>) disagree", cs.Label, f.Name(), got, f.Name(), c03NameOr(xf))
-		}
-		if !types.Identical(c03Deref(f.Type()), osmNT) {
-			return "", fmt.Sprintf("Action.%s is not an OSM body", f.Name())
-		}
-		// allocated before decoding
-		alloc := false
-		ast.Inspect(cs.Clause, func(n ast.Node) bool {
-			if as, ok := n.(*ast.AssignStmt); ok && as.Pos() < dc.Call.Pos() {
-				for i, l := range as.Lhs {
-					if i < len(as.Rhs) && fieldOf(info, l) == f && rootObj(info, l) == recv && c03AllocType(info, as.Rhs[i]) != nil {
-						alloc = true
-					}
-				}
-			}
-			return true
-		})
-		if !alloc {
-			return "", fmt.Sprintf("Action.%s is not allocated before DecodeElement(%s, ...): decoding into a nil *OSM fails", f.Name(), c03Src(dc.Target))
-		}
-		return f.Name(), ""
-	}
-	// local variable v := &T{}
-	vt := c03NewOf(info, cs.Clause, dc.TObj)
-	if vt == nil {
-		return "", fmt.Sprintf("%s is not allocated as &T{} in the case body", dc.TObj.Name())
-	}
-	if ti := c03XMLTypeInfo(vt); ti != nil && ti.XMLName != nil && ti.XMLName.Name != "" && ti.XMLName.Name != cs.Label {
-		return "", fmt.Sprintf("<%s> is decoded into %s whose XMLName is %q: DecodeElement fails with \"expected element type <%s>\"", cs.Label, c03Short(vt), ti.XMLName.Name, ti.XMLName.Name)
-	}
-	// a.OSM = &OSM{K: KS{v}}
-	var path, why string
-	ast.Inspect(cs.Clause, func(n ast.Node) bool {
-		as, ok := n.(*ast.AssignStmt)
-		if !ok || as.Pos() < dc.Call.Pos() || len(as.Lhs) != 1 || len(as.Rhs) != 1 {
-			return true
-		}
-		lf := fieldOf(info, as.Lhs[0])
-		if lf == nil || rootObj(info, as.Lhs[0]) != recv || !types.Identical(c03Deref(lf.Type()), osmNT) {
-			return true
-		}
-		ue, ok := ast.Unparen(as.Rhs[0]).(*ast.UnaryExpr)
-		if !ok {
-			return true
-		}
-		cl, ok := ast.Unparen(ue.X).(*ast.CompositeLit)
-		if !ok {
-			return true
-		}
-		for _, el := range cl.Elts {
-			kv, ok := el.(*ast.KeyValueExpr)
-			if !ok || !usesObj(info, kv.Value, dc.TObj) {
-				continue
-			}
-			k, _ := kv.Key.(*ast.Ident)
-			if k == nil {
-				continue
-			}
-			xf := osmTI.Field(k.Name)
-			switch {
-			case xf == nil || xf.Kind != c03Elem:
-				why = fmt.Sprintf("OSM.%s is not an element field", k.Name)
-			case xf.Name != cs.Label:
-				why = fmt.Sprintf("<%s> is stored into OSM.%s, which is tagged %q (and written back as <%s>)", cs.Label, k.Name, xf.Name, xf.Name)
-			case !types.Identical(c03ElemType(xf.Var.Type()), c03Deref(vt)):
-				why = fmt.Sprintf("<%s> is decoded into %s but OSM.%s holds %s", cs.Label, c03Short(vt), k.Name, c03Short(c03ElemType(xf.Var.Type())))
-			default:
-				path = lf.Name() + "." + k.Name
-			}
-		}
-		return true
-	})
-	if path == "" && why == "" {
-		why = fmt.Sprintf("the decoded %s is never stored into the action (expected `a.OSM = &OSM{K: ...{%s}}`)", dc.TObj.Name(), dc.TObj.Name())
-	}
-	if path != "" {
-		why = ""
-	}
-	return path, why
-}
 
 func c03NameOr(f *c03Field) string {
 	if f == nil {
@@ -825,52 +249,243 @@ func c03NameOr(f *c03Field) string {
 	return f.Name
 }
 
-// c03DateLayout checks that Date.UnmarshalXML parses with the constant Date.MarshalXML formats with
-// (shared by C03.T4 and C04.X5).
-func c03DateLayout(r *core.R, construct string) {
-	pk := c03OsmPkg(r.P)
-	info := pk.TypesInfo
-	un := findFunc(pk, "(*Date).UnmarshalXML")
-	ma := findFunc(pk, "Date.MarshalXML")
-	if un == nil || ma == nil {
-		r.Anchor("osm.Date MarshalXML/UnmarshalXML")
+func c03T4(r *core.R) {
+	c03Init(r)
+	tbl, err := c03LoadTable()
+	if err != nil {
+		r.Anchor("tables/osmxml.json: " + err.Error())
 		return
 	}
-	type use struct {
-		e   ast.Expr
-		val string
-		ok  bool
-		pos token.Pos
+	tt := tbl.Type("Action")
+	if tt == nil {
+		r.Anchor("tables/osmxml.json: type Action")
+		return
 	}
-	var parse, format []use
-	ast.Inspect(un.Decl.Body, func(n ast.Node) bool {
-		if call, ok := n.(*ast.CallExpr); ok && len(call.Args) == 2 {
-			if fn := callee(info, call); isPkgFunc(fn, "time", "Parse") || (isPkgFunc(fn, "time", "ParseInLocation")) {
-				v, ok := constString(info, call.Args[0])
-				parse = append(parse, use{call.Args[0], v, ok, call.Pos()})
+	var attrs, elems []string
+	inTable := map[string]*c03TableEntry{}
+	for i := range tt.Entries {
+		e := &tt.Entries[i]
+		switch e.Kind {
+		case "attr":
+			attrs = append(attrs, strings.TrimPrefix(e.XML, "@"))
+		case "element":
+			elems = append(elems, e.XML)
+			inTable[e.XML] = e
+		}
+	}
+	if m := c03BuildActionModel(r, attrs, elems); m != nil {
+		c03T4Action(r, m, tt, inTable)
+	}
+	c03DateLayout(r, "layout@Date")
+	c03DateDecode(r)
+}
+
+func c03T4Action(r *core.R, m *c03ActionModel, tt *c03TableType, inTable map[string]*c03TableEntry) {
+	name := m.un.Name()
+	if m.aborted != "" {
+		r.Unknown("explore@"+name, m.un.Decl.Pos(), "%s could not be explored completely: %s", name, m.aborted)
+		return
+	}
+	actTI := c03XMLTypeInfo(m.actNT)
+	// --- attributes of the start element
+	for _, e := range tt.Entries {
+		if e.Kind != "attr" {
+			continue
+		}
+		aname := strings.TrimPrefix(e.XML, "@")
+		c := "attr@" + name + " " + aname
+		pos := m.un.Decl.Pos()
+		if p, ok := m.AttrPos[aname]; ok {
+			pos = p
+		}
+		got := m.AttrRead[aname]
+		tagOK := false
+		if f := actTI.Field(e.Field); f != nil && f.Kind == c03Attr && f.Name == aname {
+			tagOK = true
+		}
+		switch {
+		case !m.AttrSeen[aname]:
+			r.Bad(c, pos, "UnmarshalXML never ranges over the attributes of the start element it is handed: %s.%s stays empty for every <action %s=...>", tt.Go, e.Field, aname)
+		case got == "":
+			r.Bad(c, pos, "for an attribute named %q of the start element, no field of the action receives the attribute's Value: %s.%s stays empty for every <action %s=...>", aname, tt.Go, e.Field, aname)
+		case strings.HasPrefix(got, "?"):
+			r.Bad(c, pos, "the Value of attribute %q reaches %s.%s only on some paths", aname, tt.Go, strings.TrimPrefix(got, "?"))
+		case got != e.Field:
+			r.Bad(c, pos, "the Value of attribute %q is stored into %s.%s; the augmented-diff format puts it into %s.%s", aname, tt.Go, got, tt.Go, e.Field)
+		case !tagOK:
+			r.Bad(c, pos, "%s.%s is not tagged `%s,attr`: the tag (used by nothing else but documentation and C04's symmetry rule) disagrees with the decoder", tt.Go, e.Field, aname)
+		default:
+			r.OK(c, pos, "the Value of attribute %q of the start element is stored into %s.%s (tagged `%s,attr`)", aname, tt.Go, e.Field, aname)
+		}
+	}
+	// --- child elements
+	for _, l := range m.Labels {
+		rd := m.Elems[l]
+		if rd == nil {
+			continue
+		}
+		c := fmt.Sprintf("case %q@%s", l, name)
+		switch e := inTable[l]; {
+		case rd.Why != "":
+			r.Bad(c, rd.Pos, "%s", rd.Why)
+			continue
+		case e != nil && e.Field != rd.GoPath:
+			r.Bad(c, rd.Pos, "<%s> inside <action> is stored into Action.%s; the augmented-diff format puts it into Action.%s", l, rd.GoPath, e.Field)
+			continue
+		}
+		r.OK(c, rd.Pos, "<%s> is decoded into a fresh object that Action.%s holds at the end of the iteration; its tag/element type is %q", l, rd.GoPath, l)
+		cc := fmt.Sprintf("decode@%s case %q", name, l)
+		if rd.Start == "" {
+			r.OK(cc, rd.Pos, "`%s` decodes the element whose start tag was read in this iteration", src(r.P.Fset, rd.Call.Call))
+		} else {
+			r.Bad(cc, rd.Pos, "`%s`: %s", src(r.P.Fset, rd.Call.Call), rd.Start)
+		}
+	}
+	var missing []string
+	for l := range inTable {
+		if m.Elems[l] == nil {
+			missing = append(missing, l)
+		}
+	}
+	sort.Strings(missing)
+	for _, l := range missing {
+		r.Bad(fmt.Sprintf("case %q@%s", l, name), m.un.Decl.Pos(), "Action.UnmarshalXML decodes nothing for a child element named %q: <%s> children of an augmented-diff <action> (%s) are silently dropped", l, l, tt.Doc)
+	}
+}
+
+// c03DateObs is what Date's XML methods do, observed on their paths.
+type c03DateObs struct {
+	un, ma   *FuncInfo
+	parse    []*c03Event // time.Parse / ParseInLocation calls of UnmarshalXML
+	format   []*c03Event // (time.Time).Format calls of MarshalXML
+	decode   []*c03Event // DecodeElement calls of UnmarshalXML
+	encode   []*c03Event // Encode / EncodeElement calls of MarshalXML
+	unParams [2]*types.Var
+	aborted  string
+}
+
+func c03ObserveDate(r *core.R) *c03DateObs {
+	pk := c03OsmPkg(r.P)
+	dateNT, _ := structType(pk, "Date")
+	if dateNT == nil {
+		r.Anchor("type osm.Date")
+		return nil
+	}
+	o := &c03DateObs{un: c03FuncInfoOf(r.P, c03Method(dateNT, "UnmarshalXML")), ma: c03FuncInfoOf(r.P, c03Method(dateNT, "MarshalXML"))}
+	if o.un == nil || o.ma == nil {
+		r.Anchor("osm.Date MarshalXML/UnmarshalXML")
+		return nil
+	}
+	if sig := o.un.Obj.Type().(*types.Signature); sig.Params().Len() == 2 {
+		o.unParams = [2]*types.Var{sig.Params().At(0), sig.Params().At(1)}
+	}
+	collect := func(fi *FuncInfo, keep func(e *c03Event) *[]*c03Event) {
+		x := &c03Interp{P: r.P}
+		seen := map[*ast.CallExpr]bool{}
+		paths := x.Run(fi, nil)
+		c03DumpPaths(r.P, fi, "date", paths)
+		if x.Aborted != "" {
+			o.aborted = fi.Name() + ": " + x.Aborted
+		}
+		for _, pa := range paths {
+			for i := range pa.St.Trace {
+				e := &pa.St.Trace[i]
+				if e.Kind != "call" || seen[e.Call] {
+					continue
+				}
+				if dst := keep(e); dst != nil {
+					seen[e.Call] = true
+					*dst = append(*dst, e)
+				}
 			}
 		}
-		return true
-	})
-	ast.Inspect(ma.Decl.Body, func(n ast.Node) bool {
-		if call, ok := n.(*ast.CallExpr); ok && len(call.Args) == 1 && isMethod(callee(info, call), "time.Time", "Format") {
-			v, ok := constString(info, call.Args[0])
-			format = append(format, use{call.Args[0], v, ok, call.Pos()})
+	}
+	collect(o.un, func(e *c03Event) *[]*c03Event {
+		switch {
+		case isPkgFunc(e.Fn, "time", "Parse"), isPkgFunc(e.Fn, "time", "ParseInLocation"):
+			return &o.parse
+		case c03IsDecoderCall(e, "DecodeElement"), c03IsDecoderCall(e, "Decode"):
+			return &o.decode
 		}
-		return true
+		return nil
 	})
+	collect(o.ma, func(e *c03Event) *[]*c03Event {
+		switch {
+		case isMethod(e.Fn, "time.Time", "Format"):
+			return &o.format
+		case isMethod(e.Fn, "encoding/xml.Encoder", "EncodeElement"), isMethod(e.Fn, "encoding/xml.Encoder", "Encode"):
+			return &o.encode
+		}
+		return nil
+	})
+	return o
+}
+
+// c03DateLayout checks that Date.UnmarshalXML parses with the layout Date.MarshalXML formats with
+// (shared by C03.T4 and C04.X5). The layouts are the values that reach time.Parse / Time.Format on the explored
+// paths, whatever constant, local or helper they travel through.
+func c03DateLayout(r *core.R, construct string) {
+	o := c03ObserveDate(r)
+	if o == nil {
+		return
+	}
 	switch {
-	case len(parse) != 1 || len(format) != 1:
-		r.Unknown(construct, un.Decl.Pos(), "expected one time.Parse in Date.UnmarshalXML and one Format in Date.MarshalXML, found %d and %d", len(parse), len(format))
-	case !parse[0].ok || !format[0].ok:
-		r.Unknown(construct, parse[0].pos, "layout is not a constant (%s / %s)", src(r.P.Fset, parse[0].e), src(r.P.Fset, format[0].e))
-	case parse[0].val != format[0].val:
-		r.Bad(construct, parse[0].pos, "Date.UnmarshalXML parses with layout %q (%s) but Date.MarshalXML formats with %q (%s): a written note date is not read back", parse[0].val, src(r.P.Fset, parse[0].e), format[0].val, src(r.P.Fset, format[0].e))
+	case o.aborted != "":
+		r.Unknown(construct, o.un.Decl.Pos(), "Date's XML methods could not be explored completely: %s", o.aborted)
+		return
+	case len(o.parse) != 1 || len(o.format) != 1:
+		r.Unknown(construct, o.un.Decl.Pos(), "expected one time.Parse in Date.UnmarshalXML and one Format in Date.MarshalXML, found %d and %d", len(o.parse), len(o.format))
+		return
+	}
+	pl, fl := o.parse[0].Args[0], o.format[0].Args[0]
+	switch {
+	case pl.K != c03KStr || fl.K != c03KStr:
+		r.Unknown(construct, o.parse[0].Node.Pos(), "layout is not a constant (%s / %s)", src(r.P.Fset, o.parse[0].Call.Args[0]), src(r.P.Fset, o.format[0].Call.Args[0]))
+	case pl.Str != fl.Str:
+		r.Bad(construct, o.parse[0].Node.Pos(), "Date.UnmarshalXML parses with layout %q (%s) but Date.MarshalXML formats with %q (%s): a written note date is not read back", pl.Str, src(r.P.Fset, o.parse[0].Call.Args[0]), fl.Str, src(r.P.Fset, o.format[0].Call.Args[0]))
 	default:
-		same := "equal constants"
-		if o := objOf(info, parse[0].e); o != nil && o == objOf(info, format[0].e) {
-			same = "the same constant " + o.Name()
+		r.OK(construct, o.parse[0].Node.Pos(), "parsed and formatted with the same layout %q", pl.Str)
+	}
+}
+
+// c03DateDecode: Date.UnmarshalXML decodes the element it was handed, on the decoder it was handed, and parses the
+// text it decoded.
+func c03DateDecode(r *core.R) {
+	o := c03ObserveDate(r)
+	if o == nil {
+		return
+	}
+	c := "decode@(*Date).UnmarshalXML"
+	if o.aborted != "" {
+		r.Unknown(c, o.un.Decl.Pos(), "Date's XML methods could not be explored completely: %s", o.aborted)
+		return
+	}
+	if len(o.decode) != 1 || o.unParams[0] == nil {
+		r.Unknown(c, o.un.Decl.Pos(), "expected one DecodeElement(&text, &start), found %d", len(o.decode))
+		return
+	}
+	dc := o.decode[0]
+	okRecv := dc.Recv.IsInit("param") && dc.Recv.Root.Obj == o.unParams[0] && len(dc.Recv.Path) == 0
+	okStart := false
+	if len(dc.Args) == 2 && dc.Args[1].K == c03KAddr {
+		if d := dc.Deref[1]; d != nil && d.IsInit("param") && d.Root.Obj == o.unParams[1] && len(d.Path) == 0 {
+			okStart = true
 		}
-		r.OK(construct, parse[0].pos, "parsed and formatted with %s = %q", same, parse[0].val)
+	}
+	okText := true
+	if len(o.parse) == 1 {
+		txt := o.parse[0].Args[len(o.parse[0].Args)-1]
+		if isPkgFunc(o.parse[0].Fn, "time", "ParseInLocation") && len(o.parse[0].Args) == 3 {
+			txt = o.parse[0].Args[1]
+		}
+		okText = txt.Call == dc.Call
+	}
+	switch {
+	case !okRecv || !okStart:
+		r.Bad(c, dc.Node.Pos(), "`%s` does not decode the start element handed to UnmarshalXML on the decoder handed to it", src(r.P.Fset, dc.Call))
+	case !okText:
+		r.Bad(c, o.parse[0].Node.Pos(), "`%s` does not parse the text that `%s` decoded", src(r.P.Fset, o.parse[0].Call), src(r.P.Fset, dc.Call))
+	default:
+		r.OK(c, dc.Node.Pos(), "decodes the text of the element it was handed (`%s`) and parses that text", src(r.P.Fset, dc.Call))
 	}
 }
